@@ -12,6 +12,10 @@ pub fn gen_case(profile: &str, rng: &mut Rng, out: &mut String) -> bool {
         "C08" => super::c02::gen_case(rng, out, true),
         "C09" => super::c09::gen_case(rng, out),
         "C15" => super::c15::gen_case(rng, out),
+        "C16" => super::c16::gen_case(rng, out),
+        "C17" => super::c17::gen_case(rng, out),
+        "C19" => super::c19::gen_case(rng, out),
+        "C20" => super::c20::gen_case(rng, out),
         _ => return false,
     }
     true
